@@ -49,7 +49,7 @@ structure PrimClosed (idx : Nat) (G : Guard) (P : State → Prop) : Prop where
       cascade (nodes and services untouched, per-service index rows kept) -/
   checkFinish : ∀ (sA s1 s : State) (p : Bool) (hc hc1 : Chk) (md : Bool),
     Store.checkPrep sA idx p hc = .ok (s1, hc1, md) → G.Cp hc.node hc.id hc.svcId → CasRel s1 s → SvcKeep idx s1 s →
-    P s → P (checkFinish s idx p hc1 md)
+    P sA → P s → P (checkFinish s idx p hc1 md)
   /-- the check rows of a state the predicate holds in satisfy the check guard (the cascade rewrites stored rows) -/
   chkRows : ∀ (s : State), P s → ∀ c ∈ s.chks, G.Cp c.node c.id c.svcId
   insertSession : ∀ (s : State) (x : Sess), P s → P (insertSession s x idx)
@@ -66,7 +66,9 @@ structure PrimClosed (idx : Nat) (G : Guard) (P : State → Prop) : Prop where
   /-- no service and no check names the node any more -/
   deleteNodePost : ∀ (s : State) (name : String), G.Np name → (∀ v ∈ s.svcs, lc v.node ≠ lc name) →
     (∀ c ∈ s.chks, lc c.node ≠ lc name) → P s → P (deleteNodePost s idx name)
-  bumpServiceIdx : ∀ (s : State) (name : String), P s → P (bumpServiceIdx s idx name)
+  /-- only the names of stored instances are bumped on their own -/
+  bumpServiceIdx : ∀ (s : State) (name : String), (∃ v ∈ s.svcs, lc v.name = lc name) → P s →
+    P (bumpServiceIdx s idx name)
   /-- the node of the instance exists -/
   svcInsert : ∀ (s : State) (v : Svc), v.modify = idx → G.Sp v.node v.id v.name → G.Np v.node →
     (nodeFind s v.node).isSome = true → P s → P (svcInsert s v)
@@ -278,7 +280,7 @@ theorem pcChk_of (hP : PrimClosed idx G P) {n : Nat} (hp : ∀ m, n = m + 1 → 
     have h1 : P s1 := hP.checkPrep _ _ _ _ _ _ hprep hC h
     split at hr
     · simp at hr; rw [← hr]
-      exact hP.checkFinish s s1 s1 p hc hc1 md hprep hC (CasRel.refl _) (svcKeep_refl _) h1
+      exact hP.checkFinish s s1 s1 p hc hc1 md hprep hC (CasRel.refl _) (svcKeep_refl _) h h1
     · simp at hr
     · next m _ =>
       split at hr
@@ -288,7 +290,7 @@ theorem pcChk_of (hP : PrimClosed idx G P) {n : Nat} (hp : ∀ m, n = m + 1 → 
         have hrel : CasRel s1 s2 :=
           foldE_rel CasRel CasRel.refl (fun a b c => CasRel.trans) _ (fun st sid st' h => (fr_cascade m).1 st idx sid st' h) _ _ _ hfold
         have hkeep : SvcKeep idx s1 s2 := foldE_keep _ (fun st sid st' h => (keep_cascade m).1 st sid st' h) _ _ _ hfold
-        refine hP.checkFinish s s1 s2 p hc hc1 md hprep hC hrel hkeep ?_
+        refine hP.checkFinish s s1 s2 p hc hc1 md hprep hC hrel hkeep h ?_
         exact foldE_ind P _ (fun st sid st' hst hc => hp m rfl st sid st' hc hst) _ _ _ h1 hfold
 
 theorem pc_cascade (hP : PrimClosed idx G P) (n : Nat) : PcDel idx P n ∧ PcChk idx G P n := by
@@ -353,11 +355,13 @@ theorem pc_deleteService (hP : PrimClosed idx G P) {s s' : State} {node id : Str
         exact hne c hmem (pk2_congr hb'.1 rfl)
       exact hP.deleteServicePost _ _ _ _ hN hv1 hno h1
 
-theorem pc_foldl_bump (hP : PrimClosed idx G P) (l : List Svc) (s : State) (h : P s) :
+theorem pc_foldl_bump (hP : PrimClosed idx G P) (l : List Svc) (s : State) (hl : ∀ v ∈ l, v ∈ s.svcs) (h : P s) :
     P (l.foldl (fun st (v : Svc) => bumpServiceIdx st idx v.name) s) := by
   induction l generalizing s with
   | nil => exact h
-  | cons v vs ih => exact ih _ (hP.bumpServiceIdx _ _ h)
+  | cons v vs ih =>
+    exact ih _ (fun w hw => hl w (List.mem_cons_of_mem _ hw))
+      (hP.bumpServiceIdx _ _ ⟨v, hl v List.mem_cons_self, rfl⟩ h)
 
 theorem pc_deleteNode (hP : PrimClosed idx G P) {s s' : State} {name : String} (hN : G.Np name)
     (hr : deleteNode s idx name = .ok s') (h : P s) : P s' := by
@@ -370,7 +374,8 @@ theorem pc_deleteNode (hP : PrimClosed idx G P) {s s' : State} {name : String} (
       split at hr
       · simp at hr
       · next s3 hf3 =>
-        have h1 := pc_foldl_bump hP (List.filter (fun v => lc v.node == lc name) s.svcs) s h
+        have h1 := pc_foldl_bump hP (List.filter (fun v => lc v.node == lc name) s.svcs) s
+          (fun v hv => (List.mem_filter.mp hv).1) h
         have hv1 := foldl_bump_view idx (List.filter (fun v => lc v.node == lc name) s.svcs) s
         generalize List.foldl (fun st (v : Svc) => bumpServiceIdx st idx v.name) s
             (List.filter (fun v => lc v.node == lc name) s.svcs) = s1 at hf2 hv1 h1
